@@ -395,6 +395,35 @@ where
                 drop(v);
                 nothing_live("clone + drop")?;
             }
+            _ if t.starts_with("foldpanic=") || t.starts_with("rfoldpanic=") => {
+                // the folding closure unwinds at its k-th call: whatever was consumed by then and whatever was not
+                // must not overlap — every element is released exactly once (by the closure, by the unwinding or by
+                // the iterator's own clean-up)
+                let rev = t.starts_with('r');
+                let k: u64 = t.split('=').nth(1).and_then(|x| x.parse().ok()).ok_or("harness: bad foldpanic index")?;
+                ledger::set_call_bomb(Some(k));
+                let it = self.it;
+                let r = vcommon::catch(move || {
+                    let f = |acc: usize, e: E| {
+                        ledger::tick("fold-closure");
+                        drop(e);
+                        acc + 1
+                    };
+                    if rev {
+                        it.rfold(0usize, f)
+                    } else {
+                        it.fold(0usize, f)
+                    }
+                });
+                ledger::set_call_bomb(None);
+                match r {
+                    Err(vcommon::PanicKind::Injected(_)) => {}
+                    Ok(c) => return Err(format!("harness: planned panic at call {k} of {n} never fired (fold returned {c})")),
+                    Err(vcommon::PanicKind::Other(m)) => return Err(format!("the closure's panic was replaced by: {m}")),
+                }
+                nothing_live("a fold whose closure unwound")?;
+                return Ok(format!("T:{}:unwound", if rev { "rfoldpanic" } else { "foldpanic" }));
+            }
             _ => return Err(format!("harness: unknown terminal {t}")),
         }
         Ok(format!("T:{t}:{}", if n == 0 { "empty" } else { "nonempty" }))
@@ -573,6 +602,22 @@ where
                 let o = s.terminal(t)?;
                 Ok(CaseInfo::new(K > 0 && len > 0, o))
             });
+        }
+        if len > 0 {
+            let mut ks = vec![0, len / 2, len - 1];
+            if len <= 8 {
+                ks = (0..len).collect();
+            }
+            ks.dedup();
+            for k in ks {
+                for t in [format!("foldpanic={k}"), format!("rfoldpanic={k}")] {
+                    ctx.case_unsharded(&format!("{prefix}h={hs};term={t}"), || {
+                        let s = build::<E, K>(&hist)?;
+                        let o = s.terminal(&t)?;
+                        Ok(CaseInfo::new(true, o))
+                    });
+                }
+            }
         }
         for op in ops_for(len, lattice) {
             let cell = Cell::new(None);
